@@ -261,7 +261,7 @@ fn run_c09(ctx: &mut Ctx) {
         }
     }
     // collision pools: full matrix
-    let pools = tier.pick(3, 2500, 40000) / ctx.nworkers + 1;
+    let pools = tier.pick(3, 20_000, 150_000) / ctx.nworkers + 1;
     let mut rng = Rng::derive(ctx.seed, 0x0909, ctx.worker as u64);
     for _ in 0..pools {
         let pool = collision_pool(&mut rng, tier.pick(12, 28, 40), 200);
@@ -467,7 +467,7 @@ fn run_c10(ctx: &mut Ctx) {
     }
     // seeded random: value, two lengths >= its significant bits, two production paths
     {
-        let per = tier.pick(100, 300_000, 4_000_000) / ctx.nworkers + 1;
+        let per = tier.pick(100, 6_000_000, 40_000_000) / ctx.nworkers + 1;
         let mut rng = Rng::derive(ctx.seed, 0x1011, ctx.worker as u64);
         for _ in 0..per {
             let ty = rng.below(NTYPES);
